@@ -444,6 +444,9 @@ pub fn analyse(s: &str) -> Analysis {
                     continue;
                 };
                 let (k, v) = (&item[..eq], &item[eq + 1..]);
+                // Every defect of the item is recorded (the value is analysed even when the
+                // key is bad), so that "single defect" never overlooks a second one.
+                let d = acc.d(v);
                 if !key_ok(k) {
                     acc.rej("key");
                     continue;
@@ -452,19 +455,22 @@ pub fn analyse(s: &str) -> Analysis {
                     acc.unspec = true;
                 }
                 let lk = ascii_lower(k);
-                let Some(d) = acc.d(v) else { continue };
+                // A repeated key is a defect of its own, whether or not its value decodes
+                // (a non-empty raw value cannot decode to the empty string).
+                let nonempty = d.as_ref().map_or(!v.is_empty(), |d| !d.is_empty());
                 match seen.get(&lk).copied() {
                     Some(prev_nonempty) => {
-                        if prev_nonempty && !d.is_empty() {
+                        if prev_nonempty && nonempty {
                             acc.rej("dup-key");
                         } else {
                             acc.unspec = true;
                         }
                     },
                     None => {
-                        seen.insert(lk.clone(), !d.is_empty());
+                        seen.insert(lk.clone(), nonempty);
                     },
                 }
+                let Some(d) = d else { continue };
                 if !d.is_empty() {
                     map.entry(lk).or_insert(d);
                 }
